@@ -12,7 +12,7 @@ fill / alignment / flag handling - i.e. almost all of the statement.  The check 
 from .common import *
 from . import arith
 from analysis import core, guards, nf
-from analysis.guards import BN
+from analysis.guards import PI, BN
 
 PROP = "C12"
 INFO = dict(
@@ -116,8 +116,11 @@ def signed_pad_rows(K, S, A, tname):
     tree = S.summary(root)
     out = []
     U = TWIN[A]
+    dbits = {"u8": 8, "u16": 16, "u32": 32, "u64": 64}[DIGIT[A]]
     for name, vf in (("negative", lambda W: -7), ("zero", lambda W: 0), ("positive", lambda W: 9), ("min", lambda W: arith.rng(W, A)[0]),
-                     ("max", lambda W: arith.rng(W, A)[1]), ("neg_one", lambda W: -1)):
+                     ("max", lambda W: arith.rng(W, A)[1]), ("neg_one", lambda W: -1),
+                     ("digit_top", lambda W: min(1 << (dbits - 1), arith.rng(W, A)[1])), ("digit_max", lambda W: min((1 << dbits) - 1, arith.rng(W, A)[1])),
+                     ("neg_digit_top", lambda W: max(-(1 << (dbits - 1)) - 1, arith.rng(W, A)[0]))):
         key = "%s:G:%s:%s:%s" % (PROP, K.config, fid, name)
         status, detail = core.PROVED, ""
         for n in core.WORLDS:
@@ -129,6 +132,22 @@ def signed_pad_rows(K, S, A, tname):
                 status, detail = core.UNDECIDED, "walk stopped before the formatter call"
                 break
             pads = find_calls(leaf[1], lambda l: "pad_integral" in l)
+            if not pads:
+                # forwarding to a primitive integer's implementation of the same trait: right exactly when the primitive
+                # holds the same numeric value
+                import re as _re
+                prim = [c for c in find_calls(leaf[1], lambda l: _re.match(r"^<(u8|u16|u32|u64|u128|usize|i8|i16|i32|i64|i128|isize) as core::fmt::%s>::fmt$" % tname, l) is not None)]
+                if len(prim) == 1 and leaf[1] == prim[0] and len(prim[0][2]) == 2:
+                    try:
+                        pv = guards.ev(prim[0][2][0], env, W)
+                    except guards.PanicReached:
+                        pv = guards.OPAQUE
+                    if isinstance(pv, PI) and tname in ("Display", "Debug", "LowerExp", "UpperExp"):
+                        if pv.v != v:
+                            status, detail = core.VIOLATED, "value %d is formatted through the primitive value %r" % (v, pv)
+                            break
+                        detail = "forwards to the primitive formatter on the same value %r" % (pv,)
+                        continue
             if len(pads) != 1 or len(pads[0][2]) != 4:
                 status, detail = core.UNDECIDED, "no single pad_integral call on this path"
                 break
